@@ -256,7 +256,8 @@ dt_io_find_strpdt2(
 			/* yay, look for all digits */
 			for (p = str; p < zp && !(*p >= '0' && *p <= '9'); p++);
 			if (p > str && p < zp && p[-1] == '-' &&
-			    !dt_unk_p(d = dt_strpdt(p - 1, fmt, ep))) {
+			    !dt_unk_p(d = dt_strpdt(p - 1, fmt, ep)) &&
+			    *ep > p) {
 				/* the sign is part of the number,
 				 * think epochs before 1970 */
 				p--;
